@@ -2,6 +2,8 @@ package host
 
 import (
 	"fmt"
+	hclog "github.com/hashicorp/go-hclog"
+	"github.com/hashicorp/go-plugin/runner"
 	"math/rand"
 	"os/exec"
 	"strings"
@@ -88,6 +90,19 @@ func TestC20(t *testing.T) {
 							hostSetFor(cfg, "netrpc")
 							cl := plugin.NewClient(cfg)
 							_ = cl.Exited()
+							if i%8 == 0 {
+								// some of the managed clients are started (a scripted in-process runner that
+								// prints a valid line) and killed again while others are being created
+								cfg.Cmd = nil
+								cfg.RunnerFunc = func(l hclog.Logger, cmd *exec.Cmd, tmp string) (runner.Runner, error) {
+									return vp.NewScriptRunner(func(r *vp.ScriptRunner) {
+										fmt.Fprintf(r.Out, "1|1|tcp|127.0.0.1:1|netrpc\n")
+										<-r.Done()
+									}), nil
+								}
+								cl.Start()
+								cl.Kill()
+							}
 							return nil
 						})
 					}
